@@ -80,6 +80,22 @@ FWExplains(cfg, s, c, r) ==
       [] OTHER -> FALSE
 FWAfter(cfg, s, c) == IF c.op = "set" THEN Append(s, <<c.a.i, c.a.v>>) ELSE s
 
+\* ---- fenwickbig: trees of more than 2^32 slots; a position is <<i \div 2^20, i % 2^20>>, compared
+\* lexicographically (the definition is FDef with that order: a prefix sum over the update log)
+PLe(a, b) == a[1] < b[1] \/ (a[1] = b[1] /\ a[2] <= b[2])
+PLt(a, b) == a[1] < b[1] \/ (a[1] = b[1] /\ a[2] < b[2])
+IsPos(p) == Len(p) = 2 /\ p[1] >= 0 /\ p[2] >= 0 /\ p[2] < 1048576
+RECURSIVE FDefBig(_, _, _)
+FDefBig(updates, op, i) ==
+    IF updates = << >> THEN 0
+    ELSE LET u == Head(updates) rest == FDefBig(Tail(updates), op, i)
+         IN  IF PLe(u[1], i) THEN FOp(op, u[2], rest) ELSE rest
+FWBExplains(cfg, s, c, r) ==
+    CASE c.op = "new" -> r.st = "ok"
+      [] c.op = "set" -> r.st = "ok" /\ IsPos(c.a.i) /\ PLt(c.a.i, cfg.n)
+      [] c.op = "get" -> r.st = "ok" /\ IsPos(c.a.i) /\ PLt(c.a.i, cfg.n) /\ r.v = FDefBig(s, cfg.op, c.a.i)
+      [] OTHER -> FALSE
+
 \* ---- bitencbig: vectors of 10^5 .. 10^7 elements, kept run-length encoded: s = sequence of <<count, value>>
 RLen(s) == LET RECURSIVE F(_)
                F(k) == IF k > Len(s) THEN 0 ELSE s[k][1] + F(k + 1)
@@ -121,12 +137,14 @@ Explains(fam, cfg, s, e) ==
       [] fam = "bitencbig" -> BBExplains(cfg, s, e.c, e.r)
       [] fam = "smallints" -> SIExplains(cfg, s, e.c, e.r)
       [] fam = "fenwick"   -> FWExplains(cfg, s, e.c, e.r)
+      [] fam = "fenwickbig" -> FWBExplains(cfg, s, e.c, e.r)
       [] OTHER -> FALSE
 After(fam, cfg, s, e) ==
     CASE fam = "bitenc"    -> BEAfter(cfg, s, e.c)
       [] fam = "bitencbig" -> BBAfter(cfg, s, e.c)
       [] fam = "smallints" -> SIAfter(cfg, s, e.c, e.r)
       [] fam = "fenwick"   -> FWAfter(cfg, s, e.c)
+      [] fam = "fenwickbig" -> FWAfter(cfg, s, e.c)
       [] OTHER -> s
 
 Init == run \in 1..Len(Rec) /\ idx = 0 /\ ok = TRUE /\ st = << >>
